@@ -1,7 +1,7 @@
 (* Shared decoding for the kinds 0203 (C02) and 0501 (C05): the real DiskWriter driven by the
    real doubleWalkDiff on a scratch directory (harness/c05.go) against Model/AbsDest.v. *)
 From Coq Require Import List NArith Bool.
-From FS Require Import Sx Model.Path Model.Stat Model.Diff Model.AbsDest Glue.DiffG.
+From FS Require Import Sx Model.Path Model.Stat Model.Diff Model.AbsDest Model.Hardlinks Glue.DiffG.
 Import ListNotations.
 Open Scope N_scope.
 Open Scope bool_scope.
@@ -121,9 +121,14 @@ Record rcase := {
 Definition dec_rcase (input impl : sx) : option rcase :=
   match input, impl with
   | SL (SN dc :: SN mc :: SN _ :: a :: b :: rest), SL [w; SL rq; SL nt; SL fin; er] =>
-    fc <- match rest with [] => Some 0 | [SN c] => Some c | _ => None end ;;
+    fc <- match rest with [] => Some 0 | [SN c] => Some c | [SN c; _] => Some c | _ => None end ;;
     A0 <- sx_list dec_entry a ;;
-    B <- sx_list dec_entry b ;;
+    B0 <- sx_list dec_entry b ;;
+    (* kind 0502 (seventh element): the listing goes through the real Send, whose hard-link filter
+       (WithHardlinkReset, Model/Hardlinks.v) rewrites link names that name no earlier entry *)
+    let B := match rest with
+             | [_; _] => combine (hardlink_reset (map fst B0)) (map snd B0)
+             | _ => B0 end in
     W <- sx_list dec_stat w ;;
     rqs <- omap sx_B rq ;;
     nts <- omap dec_notif nt ;;
